@@ -66,21 +66,23 @@ func modelNumber(v sq.Val) (c conv) {
 		case decIntRe.MatchString(s):
 			n, err := strconv.ParseInt(s, 10, 64)
 			if err != nil {
-				return conv{dontCare: true} // out of int64 range
+				// numeric, but no int64: "strictly parsed" leaves only an error (the float
+				// destination is judged separately below)
+				return conv{wantErr: true}
 			}
 			f, _ := strconv.ParseFloat(s, 64)
 			return conv{i: n, f: f}
 		case decFloatRe.MatchString(s):
 			f, err := strconv.ParseFloat(s, 64)
-			if err != nil || f >= 9.2e18 || f <= -9.2e18 {
-				return conv{dontCare: true}
+			if err != nil {
+				return conv{dontCare: true} // 1e999: Go reports a range error, the value is +Inf
+			}
+			if f >= 9.223372036854775807e18 || f < -9.223372036854775808e18 {
+				return conv{wantErr: true, f: f} // no int64 can hold it
 			}
 			return conv{i: int64(f), f: f}
 		}
-		ls := strings.ToLower(strings.TrimLeft(s, "+-"))
-		if strings.HasPrefix(ls, "inf") || strings.HasPrefix(ls, "nan") || strings.HasPrefix(ls, "0x") || strings.HasPrefix(ls, "0b") || strings.HasPrefix(ls, "0o") || strings.Contains(s, "_") {
-			return conv{dontCare: true}
-		}
+		// "inf", "nan", "0x1p4", "1_000" ... are Go literal syntax, not numeric text
 		return conv{wantErr: true} // unparsable text
 	}
 	return conv{dontCare: true}
@@ -150,9 +152,18 @@ func checkScanRow(c *sim.Ctx, row sqlittle.Row) {
 			if fv, isf := v.(float64); isf {
 				fc = conv{f: fv}
 			}
-			if s, iss := v.(string); iss && decIntRe.MatchString(s) {
-				pf, perr := strconv.ParseFloat(s, 64)
-				fc = conv{f: pf, dontCare: perr != nil}
+			var txt string
+			switch x := v.(type) {
+			case string:
+				txt = x
+			case []byte:
+				txt = string(x)
+			}
+			if _, isText := v.(string); isText || len(txt) > 0 {
+				if decIntRe.MatchString(txt) || decFloatRe.MatchString(txt) {
+					pf, perr := strconv.ParseFloat(txt, 64)
+					fc = conv{f: pf, dontCare: perr != nil}
+				}
 			}
 			if ok && !fc.dontCare && ((err != nil) != fc.wantErr || (err == nil && f != fc.f && !(f != f && fc.f != fc.f))) {
 				fail(i, "*float64", fmt.Sprintf("got %v err=%v, want %v error=%v", f, err, fc.f, fc.wantErr))
